@@ -7,7 +7,8 @@
    names: no Unit type (no_unit), and the Struct<-Hash rule cannot have contributed (rule_free: the left
    operand contains no Struct or the right operand contains no Hash). `rx` (Go regexp matching) is arbitrary. *)
 From Coq Require Import ZArith NArith Bool List.
-From PcoreV Require Import Model.Base Model.Ty Model.Lattice Proofs.LatticeBasics Proofs.LatticeRule Proofs.LatticeSound.
+From PcoreV Require Import Model.Base Model.Ty Model.Lattice Proofs.LatticeBasics Proofs.LatticeRule Proofs.LatticeSound
+  Proofs.LatticeTransBasics Proofs.LatticeTransSound.
 Import ListNotations.
 Open Scope Z_scope.
 
@@ -24,6 +25,57 @@ Definition C01_statement (vals : value -> bool) : Prop :=
 Theorem C01_sound_partial : C01_statement wf_val.
 Proof. exact C01_sound_first_order. Qed.
 Print Assumptions C01_sound_partial.
+
+(* The full theorem: ALL values, types used as values (the instances of Type[T]) included.  The Type[T] case is
+   transitivity of assignability (C03_trans, Proofs/LatticeTrans.v): `inst (TType t) (VType u) = asg t u`.
+   Hypotheses beyond those of the partial theorem:
+     wf_valt v          hash keys pairwise different; every type that occurs in v as a value is well-formed, Unit-free
+                        and has no Array/Hash/Tuple size with a negative maximum (open C03 finding
+                        trans-negative-collection-size: without it transitivity, hence this case, is false);
+     rule_free_val t v  the by-specification Struct<-Hash rule cannot fire when an instance of Type[T] is tested
+                        against t: t contains no Struct or no type inside v contains a Hash (the exclusion the
+                        property names, one level down; C01_rule_excluded_for_type_values shows it is needed). *)
+Definition C01_statement_all_values : Prop :=
+  forall (rx : str -> str -> bool) (a b : ty) (v : value),
+    wf_ty a = true -> wf_ty b = true -> no_unit a = true -> no_unit b = true ->
+    rule_free a b = true -> rule_free_val a v = true -> rule_free_val b v = true -> wf_valt v = true ->
+    asg rx true a b = true -> inst rx true b v = true -> inst rx true a v = true.
+
+Theorem C01_sound : C01_statement_all_values.
+Proof. exact C01_sound_all_values. Qed.
+Print Assumptions C01_sound.
+
+(* the same for the relation and the instance test without the by-specification rule: no exclusion at all *)
+Theorem C01_sound_rule_free_relation :
+  forall (rx : str -> str -> bool) (a b : ty) (v : value),
+    wf_ty a = true -> wf_ty b = true -> no_unit a = true -> no_unit b = true -> wf_valt v = true ->
+    asg rx false a b = true -> inst rx false b v = true -> inst rx false a v = true.
+Proof. exact C01_sound_rule_free_model. Qed.
+Print Assumptions C01_sound_rule_free_relation.
+
+(* Non-vacuity of the full theorem: a value that holds types, flowing through Type[...] inside a Struct and a Tuple *)
+Example C01_all_values_nonvacuous :
+  let rx := fun _ _ => false in
+  let a := TStruct [([97%N], (TStringVal [97%N], TTuple [TType (TVariant [TScalar; TArray TAny 0 9]); TOptional (TType TAny)] false 2 2))] in
+  let b := TStruct [([97%N], (TStringVal [97%N], TTuple [TType (TArray TNumeric 0 5); TType (TInteger 0 9)] false 2 2))] in
+  let v := VHash [(VStr [97%N], VArr [VType (TTuple [TInteger 1 2; TFloat 0 1] false 2 2); VType (TInteger 3 4)])] in
+  wf_ty a = true /\ wf_ty b = true /\ no_unit a = true /\ no_unit b = true /\ rule_free a b = true /\
+  rule_free_val a v = true /\ rule_free_val b v = true /\ wf_valt v = true /\ wf_val v = false /\
+  asg rx true a b = true /\ inst rx true b v = true /\ inst rx true a v = true /\ asg rx true b a = false.
+Proof. vm_compute. repeat split; reflexivity. Qed.
+
+(* the exclusion of the rule is needed one level down as well: Type[Hash[Enum['a'],Integer]] accepts
+   Type[Struct[{a=>Integer}]] (no Struct on the left: rule_free holds), the type Hash[String,Integer,1,1] is an instance
+   of the latter through the rule, and not of the former *)
+Example C01_rule_excluded_for_type_values :
+  let rx := fun _ _ => false in
+  let i := TInteger (-9223372036854775808) 9223372036854775807 in
+  let a := TType (THash (TEnum false [[97%N]]) i 0 9223372036854775807) in
+  let b := TType (TStruct [([97%N], (TStringVal [97%N], i))]) in
+  let v := VType (THash TString i 1 1) in
+  rule_free a b = true /\ wf_valt v = true /\ asg rx true a b = true /\ inst rx true b v = true /\ inst rx true a v = false /\
+  rule_free_val b v = false.
+Proof. vm_compute. repeat split; reflexivity. Qed.
 
 (* Non-vacuity: a nested pair that IS accepted, and an instance that flows through. *)
 Example C01_nonvacuous :
